@@ -123,6 +123,9 @@ def rule_from_table(ctx):
             st = next((p for p in ps if A.kind(p) == "Stmt::Local" or (A.kind(p) == "Stmt::Expr")), None)
             top = _top_stmt(ex, x)
             writes.append(top)
+        if A.kind(x) == "Stmt::Local" and A.pat_idents(x["pat"]) == ["has_explicit_from"] and x.get("init") is not None and A.render(x["init"]["expr"]) not in ("false", "true"):
+            # computed as a whole (`let has_explicit_from = attrs.iter().any(..)`)
+            writes.append(x)
         if A.kind(x) == "Expr::Struct" and A.path_last(x["path"]) == "Expansion":
             for fv in x["fields"]:
                 if fv["member"]["0"]["sym"] == "has_explicit_from" and A.render(fv["expr"]) == "has_explicit_from":
@@ -191,7 +194,11 @@ def rule_field_order(ctx):
     if "let mut from_tys=self.fields.validate_type(ty)?" not in body or "let from_ty=from_tys.next().unwrap_or_else(||unreachable!())" not in body:
         ctx.report("order:from:validate", ctx.where(ex.file, ex.node), "listed types are no longer validated against the field count and consumed one per field in order", {})
     ctx.instance("from:forward-counter")
-    if 'let gen_ident=format_ident!("__FromT{i}")' not in body or "gen_idents.push(gen_ident);i+=1" not in body or not ("for (ty,ident) in field_tys.iter().zip(&gen_idents)" in body or "for (ty,ident) in field_tys.iter().zip(gen_idents)" in body):
+    # numbered by a counter bumped once per pushed parameter, or by the length of the list pushed to
+    gi = [d for x_, d in A.ident_ctors(ex.block) if d["pattern"] == "__FromT{}" and len(d["args"]) == 1 and d["span"] is None]
+    ix_ = gi[0]["args"][0].replace(" ", "") if len(gi) == 1 else None
+    idx_ok = ix_ is not None and ((ix_ == "gen_idents.len()" and "gen_idents.push(gen_ident)" in body) or (re.fullmatch(r"\w+", ix_) is not None and f"gen_idents.push(gen_ident);{ix_}+=1" in body and f"let mut {ix_}=0" in body))
+    if not idx_ok or not ("for (ty,ident) in field_tys.iter().zip(&gen_idents)" in body or "for (ty,ident) in field_tys.iter().zip(gen_idents)" in body):
         ctx.report("order:from:forward", ctx.where(ex.file, ex.node), "forward impl: the fresh parameter `__FromT{i}` is no longer created once per field in order and zipped with the field types", {})
     # Into
     ie = A.get_fn(ctx.files, INTO, "expand")
@@ -233,7 +240,29 @@ def rule_field_order(ctx):
     sb = A.get_fn(ctx.files, CTOR, "struct_body")
     if "#return_type(#(#vars),*)" not in [tx(x) for x in T.templates_of(tb, composed=True)] or A.wsearch(A.fn_text(tb), 'numbered_vars(fields.len(),"")') is None:
         ctx.report("order:ctor:tuple", ctx.where(tb.file, tb.node), "tuple constructor body changed", {})
-    if "#return_type{#(#field_names:#vars),*}" not in A.TList(A.TTxt(tx(x)) for x in T.templates_both(sb)) or "let vars=field_names" not in A.fn_text(sb):
+    # `Ty { #(#name: #var),* }` where name and var are the same list (possibly through an alias), built from the
+    # fields' own identifiers in order
+    al = {n: e for n, (e, st, interp) in A.aliases(sb).items()}
+
+    def root(n, depth=0):
+        e = al.get(n)
+        while e is not None and A.kind(e) in ("Expr::Reference", "Expr::Paren"):
+            e = e["expr"]
+        if e is not None and A.kind(e) == "Expr::MethodCall" and e["method"]["sym"] == "clone" and not e["args"]:
+            e = e["receiver"]
+        if e is not None and A.kind(e) == "Expr::Path" and "::" not in (A.path_str(e) or "::") and depth < 4:
+            return root(A.path_str(e), depth + 1)
+        return n
+
+    ok_struct = False
+    for x in T.templates_both(sb):
+        m = re.fullmatch(r"#(\w+)\{#\(#(\w+):#(\w+)\),\*\}", tx(x))
+        if m and root(m.group(2)) == root(m.group(3)):
+            r0 = root(m.group(2))
+            inits = [A.render(st["init"]["expr"]) for st, _ in A.find(sb.block, "Stmt::Local") if st.get("init") and A.pat_idents(st["pat"]) == [r0]]
+            if inits and all("field_idents(fields)" in i_ for i_ in inits):
+                ok_struct = True
+    if not ok_struct:
         ctx.report("order:ctor:struct", ctx.where(sb.file, sb.node), "struct constructor body changed (`field: field` for each field in order)", {})
 
 
